@@ -300,9 +300,9 @@ example : ((run (init [mkRes 0 false false 0] 30000) supersededWitness).2.filter
     FULL STATEMENT (false for the current code, see the witness): "a Reset naming ANY notification sent to a registered
     entry under its current registration removes the entry". -/
 theorem reset_of_notification_removes_partial (st : State) (c mid rid tok : Nat)
-    (hq : (conDec (rxSession st c) c).sendq.find? (matchQ c mid) = none)
-    (hm : findByMid (conDec (rxSession st c) c).res c mid = some (rid, tok)) :
-    handleRst st c mid = deleteObserver (conDec (rxSession st c) c) rid c tok := by
+    (hq : (rxSession st c).sendq.find? (matchQ c mid) = none)
+    (hm : findByMid (rxSession st c).res c mid = some (rid, tok)) :
+    handleRst st c mid = deleteObserver (rxSession st c) rid c tok := by
   unfold handleRst
   dsimp only
   rw [hq]
